@@ -31,6 +31,7 @@ pub struct Profile {
     pub w_settle: u32, // weight of a settle sequence (drop everything, empty commits, probe)
     pub settle_commits: u32,
     pub w_idle_nd: u32, // percent of transactions that are an idle non-durable commit followed by begin_read
+    pub w_cursor: u32,  // percent of normal-table operations that are a gap-cursor session (needs --features cursor)
 }
 
 impl Profile {
@@ -56,6 +57,7 @@ impl Profile {
             w_settle: 0,
             settle_commits: 3,
             w_idle_nd: 0,
+            w_cursor: 0,
         };
         match name {
             "table" => base,
@@ -228,6 +230,8 @@ impl Profile {
                 w_idle_nd: 8,
                 ..base
             },
+            // gap cursors (experimental_cursor): write sessions with runs of inserts in both directions, read sessions
+            "cursor" => Profile { w_cursor: 45, w_reader: 8, w_savepoint: 3, ops_per_txn: 14, w_abort: 15, w_reopen: 3, ..base },
             other => panic!("unknown profile {other}"),
         }
     }
@@ -260,6 +264,7 @@ pub struct Gen {
     last_step: Option<J>,
     long_bytes: Vec<u32>,
     later_restore: Option<String>,
+    cur_n: Option<String>,
 }
 
 impl Gen {
@@ -289,6 +294,7 @@ impl Gen {
             last_step: None,
             long_bytes: cx.long_keys("bytes"),
             later_restore: None,
+            cur_n: None,
         }
     }
 
@@ -401,6 +407,12 @@ impl Gen {
                 _ => json!({"e": "len", "src": "w", "n": n}),
             };
         }
+        if rng.random_range(0..100) < self.p.w_cursor {
+            if rng.random_range(0..5) == 0 {
+                return json!({"e": "rcursor", "src": "w", "n": n, "b": self.bound(rng, &n), "upper": rng.random_range(0..2) == 0, "ops": self.rcursor_ops(rng)});
+            }
+            return self.cursor_session(rng, &n, &vt);
+        }
         let k = self.key(rng, &n);
         match rng.random_range(0..100) {
             0..=34 => json!({"e": "ins", "n": n, "k": k, "v": self.value(rng, &vt)}),
@@ -434,6 +446,74 @@ impl Gen {
                         "cnt": if rng.random_range(0..3) == 0 { 1000 } else { rng.random_range(0..10) },
                         "rev": rng.random_range(0..2) == 0, "alt": rng.random_range(0..4) == 0}),
         }
+    }
+
+    fn cursor_session(&mut self, rng: &mut StdRng, n: &str, vt: &str) -> J {
+        let b = self.bound(rng, n);
+        let upper = rng.random_range(0..2) == 0;
+        let mut ops: Vec<J> = vec![];
+        // x follows where an accepted insert would have to be
+        let mut x: i64 = b.get("k").and_then(|k| k.as_i64()).unwrap_or(if upper { self.nkeys as i64 - 1 } else { 0 });
+        let segments = rng.random_range(1..6);
+        for _ in 0..segments {
+            match rng.random_range(0..100) {
+                0..=24 => {
+                    // ascending run through insert_before
+                    let len = if rng.random_range(0..6) == 0 { rng.random_range(12..48) } else { rng.random_range(1..8) };
+                    for _ in 0..len {
+                        if x < 0 || x >= self.nkeys as i64 {
+                            break;
+                        }
+                        ops.push(json!({"op": "ins_before", "k": x, "v": self.value(rng, vt)}));
+                        x += if rng.random_range(0..5) == 0 { 2 } else { 1 };
+                    }
+                }
+                25..=49 => {
+                    // descending run through insert_after
+                    let len = if rng.random_range(0..6) == 0 { rng.random_range(12..48) } else { rng.random_range(1..8) };
+                    for _ in 0..len {
+                        if x < 0 || x >= self.nkeys as i64 {
+                            break;
+                        }
+                        ops.push(json!({"op": "ins_after", "k": x, "v": self.value(rng, vt)}));
+                        x -= if rng.random_range(0..5) == 0 { 2 } else { 1 };
+                    }
+                }
+                50..=57 => {
+                    let k = self.key(rng, n);
+                    ops.push(json!({"op": if rng.random_range(0..2) == 0 { "ins_before" } else { "ins_after" }, "k": k, "v": self.value(rng, vt)}));
+                }
+                58..=69 => {
+                    for _ in 0..rng.random_range(1..5) {
+                        ops.push(json!({"op": "next"}));
+                        x += 1;
+                    }
+                }
+                70..=81 => {
+                    for _ in 0..rng.random_range(1..5) {
+                        ops.push(json!({"op": "prev"}));
+                        x -= 1;
+                    }
+                }
+                82..=87 => ops.push(json!({"op": "peek_next"})),
+                88..=91 => ops.push(json!({"op": "peek_prev"})),
+                92..=95 => {
+                    for _ in 0..rng.random_range(1..4) {
+                        ops.push(json!({"op": "rem_next"}));
+                    }
+                }
+                _ => {
+                    for _ in 0..rng.random_range(1..4) {
+                        ops.push(json!({"op": "rem_prev"}));
+                    }
+                }
+            }
+        }
+        json!({"e": "cursor", "n": n, "b": b, "upper": upper, "ops": ops, "end": if rng.random_range(0..4) == 0 { "drop" } else { "close" }})
+    }
+
+    fn rcursor_ops(&self, rng: &mut StdRng) -> Vec<&'static str> {
+        (0..rng.random_range(1..10)).map(|_| ["peek_next", "peek_prev", "next", "next", "prev", "prev"][rng.random_range(0..6)]).collect()
     }
 
     fn reader_op(&mut self, rng: &mut StdRng) -> Option<J> {
@@ -471,6 +551,9 @@ impl Gen {
             }
         } else {
             match rng.random_range(0..10) {
+                _ if rng.random_range(0..100) < self.p.w_cursor => {
+                    json!({"e": "rcursor", "b": self.bound(rng, &n), "upper": rng.random_range(0..2) == 0, "ops": self.rcursor_ops(rng)})
+                }
                 0..=4 => json!({"e": "get", "k": k}),
                 5 => json!({"e": "len"}),
                 6 => json!({"e": "edge", "last": rng.random_range(0..2) == 0}),
@@ -790,6 +873,14 @@ impl Gen {
                 "delete" if okr => {
                     self.known.remove(ev["a"].as_str().unwrap());
                     self.pop.remove(ev["a"].as_str().unwrap());
+                }
+                "cur_open" => {
+                    self.cur_n = ev["n"].as_str().map(|s| s.to_string());
+                }
+                "cur" if okr && ev["op"].as_str().is_some_and(|o| o.starts_with("ins")) => {
+                    if let (Some(n), Some(k)) = (self.cur_n.clone(), ev["k"].as_u64()) {
+                        self.pop.entry(n).or_default().insert(k as u32);
+                    }
                 }
                 "ins" | "insr" | "mins" | "entry" => {
                     if let (Some(n), Some(k)) = (ev["n"].as_str(), ev["k"].as_u64()) {
